@@ -69,8 +69,8 @@ for _p in ("C04", "C05", "C06", "C07", "C12"):
 
 A_ARK4 = "A-ARK-4: each ark_r1cs_std primitive used (FpVar new_witness/new_constant/square/inverse/negate/is_eq/conditionally_select/conditional_enforce_equal/to_bits_le/+,-,*; Boolean new_witness/and/or/not/is_eq/enforce_equal/select; AffineVar::new) is a sound and complete gadget for the operation it names (preludes/r1cs.rs)"
 PROPS["C14"] = dict(units=["r1cs_sound", "r1cs_fwd_sound", "r1cs_outer_sound"], assumptions=[A_ARK4, M_PRIME + " (no zero divisors; a non-zero square has exactly two roots; zeta is a non-square)", M_DECAF, A_WF],
-    explanation="the verbatim gadget code is verified with every witness value left arbitrary and every enforced constraint taken as a fact: any satisfying assignment makes isqrt / sign / abs / encode / decode / Elligator / equality / select outputs satisfy the specification's relations; known finding D6 is the region den = 0 of isqrt (decode of s = q-1)",
-    not_decided=["AllocVar::new_variable / new_variable_omit_prime_order_check of inner.rs and element.rs (generic Borrow / closure plumbing around the decode-and-compare check): bounded probe r1cs.alloc (off-curve and out-of-group coordinate pairs through both entry points)",
+    explanation="the verbatim gadget code is verified with every witness value left arbitrary and every enforced constraint taken as a fact: any satisfying assignment makes isqrt / sign / abs / encode / decode / Elligator / equality / select outputs satisfy the specification's relations; the four AllocVar::new_variable functions (inner AllocVar<Element>; outer AllocVar<Element>, AllocVar<AffinePoint>, AllocVar<Fq>) are verified with the offered point, the offered encoding and both isqrt hints arbitrary: a Witness-mode variable is always the in-circuit decoding of some field element or an on-curve point the equality gadget identifies with it; known finding D6 is the region den = 0 of isqrt (decode of s = q-1)",
+    not_decided=["CurveVar::new_variable_omit_prime_order_check of both layers (by its name it performs no group check; callers that need one go through new_variable, which is proved): bounded probe r1cs.alloc",
                  "to_bits_le / to_bytes / value / cs of both ElementVar layers", "lazy.rs itself is C13 (Kani)"])
 
 PROPS["C13"] = dict(units=["r1cs_compl", "r1cs_fwd_compl", "r1cs_outer_compl"], assumptions=[A_ARK4, M_PRIME, M_ELL, M_DECAF, C09_CONTRACT, A_WF],
